@@ -226,15 +226,19 @@ static OpRes run_op(Side &sd, const Binding &b, const Bytes &P, const Bytes &S, 
     case 8: { const char *p = ((fn_pref)f)(); r.null_ret = !p; if (p) r.s = p; break; }
     case 9: case 11: {
       char vec[64];
-      for (int i = 0; i < 64; i++) vec[i] = (char)(((unsigned char)P[(size_t)i % (P.size() ? P.size() : 1)] >> (i % 8)) & 1);
-      if (P.empty()) memset(vec, 0, 64);
+      // only the low bit of each byte counts; old binaries pass '0'/'1' characters or other junk in the upper bits
+      for (int i = 0; i < 64; i++) {
+        unsigned char src = P.empty() ? 0 : (unsigned char)P[(size_t)i % P.size()];
+        unsigned char junk = (arg & 1) ? (unsigned char)((src * 37 + i * 11) & 0xfe) : (arg & 2) ? 0x30 : 0;
+        vec[i] = (char)(junk | ((src >> (i % 8)) & 1));
+      }
       if (sigclass(b.sym) == 9) ((fn_setkey)f)(vec); else ((fn_setkey_r)f)(vec, cd);
       r.null_ret = false;
       break;
     }
     default: {
       char vec[64];
-      for (int i = 0; i < 64; i++) vec[i] = (char)((arg >> (i % 8)) & 1);
+      for (int i = 0; i < 64; i++) vec[i] = (char)((((arg >> 4) & 1) ? ((arg * 29 + i * 7) & 0xfe) : ((arg >> 5) & 1) ? 0x30 : 0) | ((arg >> (i % 8)) & 1));
       if (sigclass(b.sym) == 10) ((fn_encrypt)f)(vec, arg & 1); else ((fn_encrypt_r)f)(vec, arg & 1, cd);
       r.null_ret = false;
       r.s.assign(vec, 64);
